@@ -224,11 +224,12 @@ func main() {
 		type tapeEntry struct {
 			Tag string `json:"tag"`
 			Val uint64 `json:"val"`
+			Rat string `json:"rat,omitempty"`
 		}
 		mk := func(v *Violation) []tapeEntry {
 			var tape []tapeEntry
 			for _, n := range v.order {
-				tape = append(tape, tapeEntry{Tag: n[:strings.LastIndex(n, "#")], Val: v.model[n]})
+				tape = append(tape, tapeEntry{Tag: n[:strings.LastIndex(n, "#")], Val: v.model[n], Rat: v.rats[n]})
 			}
 			return tape
 		}
@@ -279,10 +280,11 @@ func main() {
 			type te struct {
 				Tag string `json:"tag"`
 				Val uint64 `json:"val"`
+				Rat string `json:"rat,omitempty"`
 			}
 			var tape []te
 			for _, n := range v.order {
-				tape = append(tape, te{Tag: n[:strings.LastIndex(n, "#")], Val: v.model[n]})
+				tape = append(tape, te{Tag: n[:strings.LastIndex(n, "#")], Val: v.model[n], Rat: v.rats[n]})
 			}
 			b, _ := json.Marshal(map[string]interface{}{"values": tape, "trace": v.trace})
 			os.MkdirAll(*tapeDir, 0755)
